@@ -185,6 +185,10 @@ Section Kholaw.
   Definition kh_new_left (zl kl : list N) : res (list N) :=
     let prvl := zl8 zl + le_to_int kl in
     guard (negb (prvl mod ed_curve_order =? 0)) else (LibError Bip32KeyError) ;;
+    (* IntegerUtils.GetBytesNumber(prvl) > Length() // 2: the child that does not fit the key length is discarded
+       (since fix 71d2424, finding C14-KHOLAW-OVERFLOW; before it int.to_bytes raised OverflowError here).  Only
+       reachable from a parent with kL >= 2^256 - 2^227, which no key derived from a seed is for 2^28 levels. *)
+    guard (prvl <? 256 ^ N.of_nat (kh_priv_len / 2)) else (LibError Bip32KeyError) ;;
     int_to_le_fixed (kh_priv_len / 2) prvl.
   Definition kh_new_right (zr kr : list N) : res (list N) :=
     int_to_le_fixed (kh_priv_len / 2) ((le_to_int zr + le_to_int kr) mod kh_kr_modulus).
